@@ -37,6 +37,60 @@ def thorough_builds():
     return out
 
 
+def compile_sweep(chk, w2c2, quick):
+    """'The emitted C compiles without errors as GNU-dialect C89 and later with gcc and clang' over many PROGRAM SHAPES: generated
+    control-heavy modules (value-carrying branches over mixed-type operands, never-falling-through blocks, dead code built from
+    the whole opcode table, many locals/labels), translated with rotating options, each emitted file compiled stand-alone with
+    gcc -std=gnu89 and clang (default dialect), -fsyntax-only plus -Werror for the diagnostics that become hard errors in
+    later dialects or at link time (undeclared identifiers are errors everywhere; implicit declarations and mismatched
+    prototypes are made errors so that a missing or differently named prototype is seen without linking)."""
+    n = 250 if quick else 3000
+    root = env.subdir('c11-sweep')
+    werr = ['-Werror=implicit-function-declaration', '-Werror=implicit-int', '-Werror=incompatible-pointer-types', '-Werror=int-conversion', '-Werror=return-type']
+
+    def one(k):
+        deep = k % 3 == 0
+        prof = gen.Profile(nan_canon=bool(k % 2), allow_trap=True, w_control=3.0, w_trace=1.0, w_mem=0.7, w_call=0.7,
+                           max_depth=10 if deep else 5, max_stmts=3, brtable_max=20, max_locals=24, max_size=700 if deep else 350)
+        c = gen.build_program_module(env.rng('c11-sweep', k), prof, n_funcs=10)
+        b = c.mod.encode(wasm.rot_enc(k))
+        d = os.path.join(root, 's%d' % k)
+        opts = [[], ['-p'], ['-m'], ['-g'], ['-f', '3'], ['-p', '-m', '-g'], ['-f', '1', '-t', '2'], ['-g', '-m']][k % 8]
+        t = e2e.translate(w2c2, b, d, 'm', opts)
+        res = []
+        if t.rc != 0:
+            ok, msg = e2e.validate_v8(b, d)
+            if ok:
+                res.append(('C11:compile-sweep:translate', 'valid generated module rejected by the translator (options %s): %s' % (' '.join(opts), t.err[-300:])))
+            shutil.rmtree(d, ignore_errors=True)
+            return k, b, opts, res, 0
+        ncomp = 0
+        for fn in sorted(t.files):
+            if not fn.endswith('.c'):
+                continue
+            for cc, std in (('gcc', ['-std=gnu89']), ('clang', [])):
+                cr = env.run([cc] + std + ['-fsyntax-only', '-w'] + werr + ['-DWASM_THREADS_PTHREADS', '-I', e2e.base_include(), '-I', d, os.path.join(d, fn)], timeout=300)
+                ncomp += 1
+                if cr.rc != 0:
+                    res.append(('C11:compile-error:sweep:%s' % cc, 'generated module %d, options %s: %s does not compile with %s %s: %s' % (k, ' '.join(opts), fn, cc, ' '.join(std), cr.err[-500:])))
+                    break
+        shutil.rmtree(d, ignore_errors=True)
+        return k, b, opts, res, ncomp
+
+    total = 0
+    for k, b, opts, res, ncomp in env.pmap(one, range(n)):
+        chk.ev(ncomp)
+        total += ncomp
+        chk.distinct(('sweep', env.sha(b)[:12], tuple(opts)))
+        seen = set()
+        for key, what in res:
+            if key not in seen:
+                seen.add(key)
+                chk.violation(key, what, {'module.wasm': b, 'opts.txt': ' '.join(opts)})
+    chk.observe('compile_sweep_modules', n, 'set')
+    chk.observe('compile_sweep_compilations', total, 'set')
+
+
 def main(chk):
     quick = chk.tier == 'quick'
     w2c2 = env.build_translator('plain')
@@ -158,6 +212,7 @@ def main(chk):
                                   dict(files, a='\n'.join(base), b='\n'.join(out)))
         if ii < 2:
             chk.sample({'module': tag, 'builds': sorted(outs), 'calls': ncalls})
+    compile_sweep(chk, w2c2, quick)
     for k, v in skipped.items():
         chk.observe('skipped_' + k, v, 'set')
     chk.observe('builds', [b_[0] for b_ in builds], 'set')
